@@ -99,6 +99,8 @@ pub fn search(pid: &str, seed: u64, budget_s: u64, out: &str) {
         "C16" => c16(&mut s),
         "C17" => c17(&mut s, &mut rng),
         "C14" => c14(&mut s, &mut rng),
+        "C12" => c12(&mut s, &mut rng),
+        "C13" => c13(&mut s, &mut rng),
         "C05" | "C06" | "C07" | "C18" | "C19" | "C20" | "C08" => opt_search(pid, &mut s, &mut rng),
         "C15" => c15(&mut s, &mut rng),
         _ => {}
@@ -354,5 +356,92 @@ fn opt_search(pid: &str, s: &mut Search, rng: &mut Rng) {
         s.class(if crystal { "crystal" } else { "scripted" });
         let reply_nontrivial = !cfg.starts_with("0 ");
         s.run("Opt.monitor", &req, "opt_history", "optimiser history violates the property", reply_nontrivial);
+    }
+}
+
+/// placements of two copies at a prescribed centre distance / relative angle, incl. the aligned
+/// special configurations bound clamping produces
+fn gen_pair_placements(rng: &mut Rng) -> ([f64; 9], [f64; 9]) {
+    let pi = std::f64::consts::PI;
+    let special = rng.chance(1, 3);
+    let ang = |rng: &mut Rng| if special { *rng.pick(&[0.0, pi / 2.0, pi, pi / 4.0, pi / 3.0, pi / 6.0, 2.0 * pi]) } else { rng.range(0.0, 2.0 * pi) };
+    let mk = |rng: &mut Rng, a: f64, mirror: bool, x: f64, y: f64| -> [f64; 9] {
+        let (s, c) = a.sin_cos();
+        let m = if mirror { -1.0 } else { 1.0 };
+        [c, -s * m, x, s, c * m, y, 0.0, 0.0, if rng.chance(1, 2) { 1.0 } else { 0.0 }]
+    };
+    let (a1, a2) = (ang(rng), ang(rng));
+    let (m1, m2) = (rng.chance(1, 4), rng.chance(1, 4));
+    let d = match rng.below(6) {
+        0 => 0.0,
+        1 => rng.range(0.0, 0.5),
+        2 | 3 => rng.range(1.0, 2.6),
+        4 => *rng.pick(&[1.0, 2.0, std::f64::consts::SQRT_2, 1.5, 0.5]),
+        _ => rng.range(0.0, 5.0),
+    };
+    let th = if special { *rng.pick(&[0.0, pi / 2.0, pi, pi / 4.0, -pi / 2.0]) } else { rng.range(0.0, 2.0 * pi) };
+    let (x0, y0) = (rng.range(-1.0, 1.0), rng.range(-1.0, 1.0));
+    let same = rng.chance(1, 4);
+    let first = mk(rng, a1, m1, x0, y0);
+    let second = mk(rng, if same { a1 } else { a2 }, m2, x0 + d * th.cos(), y0 + d * th.sin());
+    (first, second)
+}
+
+fn c12(s: &mut Search, rng: &mut Rng) {
+    let mut n = 0u64;
+    while s.time_left() && n < 2_000_000 {
+        n += 1;
+        let sh = match rng.below(10) {
+            0..=4 => format!("poly {}", *rng.pick(&[3usize, 4, 5, 6, 7, 8, 12])),
+            5 => {
+                // convex radial polygon: equal radii scaled
+                let k = 3 + rng.usize(6);
+                let r = rng.range(0.5, 1.5);
+                format!("radial {} {}", k, (0..k).map(|_| fhex(r)).collect::<Vec<_>>().join(" "))
+            }
+            6 | 7 => "circle".to_string(),
+            _ => crate::gen::gen_trimer(rng, "trimer"),
+        };
+        let (a, b) = gen_pair_placements(rng);
+        let m = crate::gen::gen_placement(rng, 3.0);
+        let req = format!("oracle c12_pair {} {} {} {}", sh, crate::gen::mat9(a), crate::gen::mat9(b), crate::gen::mat9(m));
+        s.class(sh.split(' ').next().unwrap_or(""));
+        s.run("Sat.exact", &req, "c12_pair", "the overlap test disagrees with exact geometry", true);
+    }
+}
+
+fn c13(s: &mut Search, rng: &mut Rng) {
+    let mut n = 0u64;
+    while s.time_left() && n < 2_000_000 {
+        n += 1;
+        if n % 4 == 0 {
+            let sh = crate::gen::gen_lj_shape(rng);
+            let (a, b) = gen_pair_placements(rng);
+            let req = format!("oracle c13_mol {} {} {}", sh, crate::gen::mat9(a), crate::gen::mat9(b));
+            s.class("molecule");
+            s.run("Lj.sumOverPairs", &req, "c13_mol", "molecule energy is not the sum over particle pairs", true);
+            continue;
+        }
+        let like = rng.chance(1, 2);
+        let sigma = rng.logmag(-1.0, 1.0);
+        let eps = rng.logmag(-2.0, 2.0);
+        let cut = if rng.chance(1, 2) { None } else { Some(rng.range(0.5, 5.0) * sigma) };
+        let (s2, e2, c2) = if like { (sigma, eps, cut) } else { (rng.logmag(-1.0, 1.0), rng.logmag(-2.0, 2.0), if rng.chance(1, 2) { None } else { Some(rng.range(0.5, 5.0)) }) };
+        let r = match rng.below(4) {
+            0 => sigma * rng.range(0.8, 1.3),
+            1 => cut.unwrap_or(sigma * 2.0) * rng.range(0.9, 1.1),
+            _ => sigma * rng.logmag(-0.7, 1.0),
+        };
+        let th = rng.range(0.0, 6.28);
+        let (x0, y0) = (rng.range(-3.0, 3.0), rng.range(-3.0, 3.0));
+        let o = |x: Option<f64>| x.map(fhex).unwrap_or_else(|| "-".to_string());
+        let req = format!(
+            "oracle c13_lj {} {} {} {} {} {} {} {} {} {} {}",
+            fhex(x0), fhex(y0), fhex(sigma), fhex(eps), o(cut),
+            fhex(x0 + r * th.cos()), fhex(y0 + r * th.sin()), fhex(s2), fhex(e2), o(c2),
+            crate::gen::mat9(crate::gen::gen_placement(rng, 3.0))
+        );
+        s.class(if like { "like" } else { "unlike" });
+        s.run("Lj.closedForm", &req, if like { "c13_like" } else { "c13_unlike_particles" }, "pair energy deviates from the shifted truncated 12-6 law / symmetry / invariance", true);
     }
 }
